@@ -118,6 +118,7 @@ def normalise_program(trees: Dict[str, ast.Module], pkgs: Set[str]) -> None:
             ho.iterator_aliases(t)
             ho.rename_apart(t)
             ho.copy_propagation(t)
+            ho.nonneg_clamp(t)
             ho.tail_return_to_break(t)
             ho.hoist_next_in_tests(t)
             ho.loop_target_unpack(t)
